@@ -173,7 +173,9 @@ def build(b, spec):
         for x in spec.get("isolated", ()):
             obj.add_node(b.lab(x))
         for i, e in enumerate(es):
-            if spec["kind"] == "dir":
+            if spec["kind"] == "dir" and spec.get("weighted"):
+                obj.add_edge((b._tuple(e[0]), b._tuple(e[1])), weight=1 + (i * 7 + spec["order_seed"]) % 4)
+            elif spec["kind"] == "dir":
                 obj.add_edge((b._tuple(e[0]), b._tuple(e[1])))
             elif spec.get("weighted"):
                 obj.add_edge(b._tuple(e), weight=1 + (i * 7 + spec["order_seed"]) % 3)
@@ -287,7 +289,7 @@ def plan(rng, tier):
     for n, ks in dir_inputs(rng, tier):
         for r in range(4 if tier == "quick" else 6):
             specs.append({"kind": "dir", "n": n, "edges": [[list(s), list(t)] for s, t in ks], "family": FAMS[len(specs) % 4],
-                          "args": {}, "np_seed": rng.randrange(2 ** 31), "py_seed": rng.randrange(2 ** 31),
+                          "weighted": r == 3, "args": {}, "np_seed": rng.randrange(2 ** 31), "py_seed": rng.randrange(2 ** 31),
                           "order_seed": rng.randrange(2 ** 31)})
     # histories of the object (own generator: the specs above stay what they were for a seed): in a quarter of the specs the object
     # held as many hyperedges of OTHER sizes before, the model was run on it with the same arguments, it was edited in place
